@@ -194,7 +194,7 @@ def intersect_line2d_arc2d(line_ray, arc):
     if u1 == u2:  # Tangent
         pt = Point2D(line_ray.p.x + u1 * line_ray.v.x,
                      line_ray.p.y + u1 * line_ray.v.y)
-        return pt if line_ray._u_in(u1) and arc._pt_in(pt) else None
+        return [pt] if line_ray._u_in(u1) and arc._pt_in(pt) else None
 
     pts = [p for p in (pt1, pt2) if p is not None and arc._pt_in(p)]
     return pts if len(pts) != 0 else None
@@ -227,7 +227,7 @@ def intersect_line2d_infinite_arc2d(line_ray, arc):
 
     if u1 == u2:  # Tangent
         pt = Point2D(line_ray.p.x + u1 * line_ray.v.x, line_ray.p.y + u1 * line_ray.v.y)
-        return pt if arc._pt_in(pt) else None
+        return [pt] if arc._pt_in(pt) else None
 
     pt1 = Point2D(line_ray.p.x + u1 * line_ray.v.x, line_ray.p.y + u1 * line_ray.v.y)
     pt2 = Point2D(line_ray.p.x + u2 * line_ray.v.x, line_ray.p.y + u2 * line_ray.v.y)
